@@ -284,7 +284,7 @@ def build(case: dict):
             keep.append(node)
             nodes.append(node)
         gin = ir.Value(name=f"in{g['gid']}")
-        outs = [values[g["nodes"][-1]["id"]][0]] if g["nodes"] else []
+        outs = []      # graph outputs play no role in the sort and would constrain replace_all_uses_with
         gr = ir.Graph([gin], outs, nodes=nodes, name=f"g{g['gid']}", opset_imports={"": 20})
         graphs[g["gid"]] = gr
         return gr
